@@ -8,8 +8,9 @@ contract(M + "_is_fix_cont",
     returns="bool",
     ensures={
         # truthiness of the returned value is what callers use
-        "iff_col6": "result == (line is not None and len(line) > 5 and line[5] != ' ' and line[:5] == '     ')",
-        "any_nonblank_mark": "implies(line is not None and len(line) > 5 and line[:5] == '     ' and line[5] != ' ', result)",
+        # Fortran 2003 3.3.2.3: any character other than blank or zero in column 6, columns 1-5 blank
+        "iff_col6": "result == (line is not None and len(line) > 5 and line[5] != ' ' and line[5] != '0' and line[:5] == '     ')",
+        "zero_is_an_initial_line": "implies(line is not None and len(line) > 5 and line[5] == '0', not result)",
     },
     raises=[],
     domain=dict(line="[None] + list(strings(' a0!', N))", _size=dict(quick=7, thorough=8)),
